@@ -779,15 +779,15 @@ func c05(c *an.Check) {
 
 func init() {
 	register(&Def{ID: "C04", Run: c04,
-		Explain:     "Decides on SSA: the controller inserts a link into its tables only past (remote peer != local peer), keyed by the reported link's own uuid / authenticated remote peer, wrapping that very link; a self-link is closed; a link lookup reads linksByPeerID[requested target] and yields values only when the request has no source constraint or the source equals the transport's peer; both tables are mutated only in the establish / lost critical sections and the flush helper (WHO) and only under the controller's broadcast lock (LOCKSET); a mounted stream's peer is its link's remote peer, set only by the constructor.",
+		Explain:     "Decides on SSA: the controller inserts a link into its tables only past (remote peer != local peer), keyed by the reported link's own uuid / authenticated remote peer, wrapping that very link; a self-link is closed; a link lookup reads linksByPeerID[requested target] and yields values only when the request has no source constraint or the source equals the transport's peer; both tables are mutated only in the establish / lost critical sections and the flush helper (WHO) and only under the controller's broadcast lock (LOCKSET); a mounted stream's peer is its link's remote peer, set only by the constructor. \"Authenticated remote peer\": certChainGates (C03's certificate-chain obligations) are part of this check; EQUIV obligations of establishLinkWithPeer.",
 		NotCov:      "interleaving-level outcomes; authentication of the remote peer itself is C03.",
 		Assumptions: commonAssumptions})
 	register(&Def{ID: "C05", Run: c05,
-		Explain:     "Decides on SSA: quic.Transport.DialPeer returns a non-nil link with a nil error only on paths where link.GetRemotePeer() was compared equal to the requested peer (or no peer was requested), the link being the per-address dialer's result; the controller's flush helper restarts dialers resolved with a lost link. Because the controller's linkDialer stores exactly DialPeer's result, this one obligation also carries 'a dialer keyed by X is never parked on an impostor's link'. (RETRY) the already-connected-to-another-peer and wrong-peer-answered returns of DialPeer are non-fatal, so the dialer for the requested peer keeps backing off; (MUSTCALL) the per-address dialer unregisters itself on every exit.",
+		Explain:     "Decides on SSA: quic.Transport.DialPeer returns a non-nil link with a nil error only on paths where link.GetRemotePeer() was compared equal to the requested peer (or no peer was requested), the link being the per-address dialer's result; the controller's flush helper restarts dialers resolved with a lost link. Because the controller's linkDialer stores exactly DialPeer's result, this one obligation also carries 'a dialer keyed by X is never parked on an impostor's link'. (RETRY) the already-connected-to-another-peer and wrong-peer-answered returns of DialPeer are non-fatal, so the dialer for the requested peer keeps backing off; (MUSTCALL) the per-address dialer unregisters itself on every exit. certChainGates shared with C03; EQUIV obligations of the DialTptAddr directive.",
 		NotCov:      "retry timing and which peer answers at an address (runtime facts).",
 		Assumptions: commonAssumptions})
 	register(&Def{ID: "C06", Run: c06,
-		Explain:     "Decides on SSA (structural part): in the controller's HandleLinkLost every flush and every uuid-table delete is dominated by (entry.lnk == reported link) — fast path included; the flush helper removes the entry from both tables, cancels it and closes the link on every path, removing exactly that entry from the per-peer list; HandleLinkEstablished inserts only when no entry exists for the uuid or the existing entry holds a different link that was flushed first (duplicate reports do not double-insert); the quic transport deletes its table entry and reports HandleLinkLost only when the entry at that address is the very link that was lost; tables only under their locks (LOCKSET); all HandleLinkLost call sites are listed. (PROVENANCE) the de-duplicating resolver that reports EstablishLinkWithPeer values keys an entry by the link's own uuid, compares entries by identity and yields the entry's mounted link; (MUSTCALL) every critical section that changes the link tables (established / lost) calls broadcast() after the change, so resolvers never keep reporting a lost link.",
+		Explain:     "Decides on SSA (structural part): in the controller's HandleLinkLost every flush and every uuid-table delete is dominated by (entry.lnk == reported link) — fast path included; the flush helper removes the entry from both tables, cancels it and closes the link on every path, removing exactly that entry from the per-peer list; HandleLinkEstablished inserts only when no entry exists for the uuid or the existing entry holds a different link that was flushed first (duplicate reports do not double-insert); the quic transport deletes its table entry and reports HandleLinkLost only when the entry at that address is the very link that was lost; tables only under their locks (LOCKSET); all HandleLinkLost call sites are listed. (PROVENANCE) the de-duplicating resolver that reports EstablishLinkWithPeer values keys an entry by the link's own uuid, compares entries by identity and yields the entry's mounted link; (MUSTCALL) every critical section that changes the link tables (established / lost) calls broadcast() after the change, so resolvers never keep reporting a lost link. scrc.Crc64 (link/transport uuid) resets its shared hasher on every call.",
 		NotCov:      "equality of the reported link set and the event history for all histories and interleavings (a model-checking statement).",
 		Assumptions: commonAssumptions})
 }
